@@ -49,6 +49,13 @@ def cases(tier, seed):
                 for source in ('dataset', 'file'):
                     yield {'grid': 'B', 'cmax': 1024, 'smax': 16384, 'ts': 1, 'size': 'F+1', 'shape': 'flat', 'source': source,
                            'recep': 'file', 'outcome': outcome, 'entity': entity, 'hist': hist, 'bound': 0, 'seg': None, 'seed': seed}
+    # grid D: the client proposes two transfer syntaxes, the provider supports only one of them (whatever the proposal order)
+    for cts in ([0, 1], [1, 2], [0, 2]):
+        for sts in cts:
+            for source in ('dataset', 'file'):
+                for recep in ('file', 'memory'):
+                    yield {'grid': 'D', 'cmax': 1024, 'smax': 1024, 'ts': sts, 'client_ts': cts, 'size': 'F+1', 'shape': 'odd', 'source': source,
+                           'recep': recep, 'outcome': 'ok', 'entity': 'ae', 'hist': 'A', 'bound': 0, 'seg': None, 'seed': seed}
     # grid C: schedule exploration on configurations with few fragments; segmentation variants under the default schedule
     cfgs = (dict(cmax=1024, smax=16384, ts=0, size='F+1', source='dataset', recep='file', entity='storage-ae', hist='AA'),
             dict(cmax=16384, smax=1024, ts=2, size='F-1', source='file', recep='memory', entity='ae', hist='A'),
@@ -148,7 +155,7 @@ def make_scenario(case, tmp):
         net.listen(('srv', 104), e3.serve_ae(ae))
         net.seg = case['seg']
         results['ae'] = ae
-        cae = applicationentity.ClientAE('SCU', [ts], case['cmax']).add_scu(sopclass.storage_scu, [CT])
+        cae = applicationentity.ClientAE('SCU', [TS[i] for i in case.get('client_ts', [case['ts']])], case['cmax']).add_scu(sopclass.storage_scu, [CT])
         insts = {'A': '1.2.3.4.1', 'B': '1.2.3.4.2'}
         sent = []
         results['sent'] = sent
